@@ -192,6 +192,9 @@ _real_path = None
 _run_mtime = None
 
 
+_reader_kw = {}          # the Reader's documented keyword (how a RUN treats garbage words), drawn per case
+
+
 def open_variant(b, measure=False, real=False):
     """(verdict, detail, cpu seconds, peak): verdict in accept / reject / wrong-exception. The time is the CPU time of
     this process, not the wall clock: a busy machine must not look like a slow reader (hangs are the watchdog's business). the Reader reads from the simulated disk, or
@@ -214,7 +217,7 @@ def open_variant(b, measure=False, real=False):
         tracemalloc.start()
     try:
         try:
-            r = Reader(path)
+            r = Reader(path, **_reader_kw)
             r.assert_runnable()
             verdict, detail = 'accept', r
         except FlipJumpReadFjmException as e:
@@ -331,8 +334,16 @@ def run(case):
     from flipjump.fjm.fjm_reader import Reader
     import lzma
     rng = random.Random(case['seed'])
+    # the reader's only option says how a run treats words outside every segment; what a damaged file is does not depend
+    # on it. Half of the cases open every variant with one of the non-default settings.
+    from flipjump.fjm.fjm_reader import GarbageHandling
+    mode = random.Random(case['seed'] ^ 0x6a7b).choice([None, None, None, 'Stop', 'SlowRead', 'OnlyWarning', 'Continue',
+                                                         'Continue'])
+    _reader_kw.clear()
+    if mode is not None:
+        _reader_kw['garbage_handling'] = GarbageHandling[mode]
     F, write_calls = build_file(case)
-    probes = {}
+    probes = {'reader_option_' + str(mode): 1}
     if F is None:
         return {'violations': [], 'probes': {'writer_refused': 1}, 'faults': {}, 'states': [], 'steps': 0,
                 'nontrivial': False, 'digest': kernel.digest_of([case, 'refused'])}
